@@ -92,6 +92,9 @@ func buildTable() []opDef {
 	add(rows("c", "VOP2", "vop2", 32, 32, 0, 32, "ii", "ref", "", 52, 53, 54))
 	add(rows("g", "VOP2", "vop2", 32, 32, 0, 32, "ii", "undoc", "vccout", 52, 53, 54))
 	add(rows("c", "VOP2", "vop2", 32, 32, 0, 32, "ff", "ref", "mac", 59))
+	// sub-dword addressing (SDWA) forms the ALUs implement
+	add(rows("gc", "VOP2", "vop2sdwa", 32, 32, 0, 32, "ii", "ref", "", 19, 20, 21))
+	add(rows("g", "VOP2", "vop2sdwa", 32, 32, 0, 32, "ii", "ref", "vccout", 25))
 	// ---------------------------------------------------------------- VOPC
 	add(rows("g", "VOPC", "vopc", 32, 32, 0, 0, "ff", "ref", "", 0x41, 0x42, 0x43, 0x44, 0x45, 0x46, 0x49, 0x4A, 0x4B, 0x4C, 0x4D, 0x4E))
 	add(rows("c", "VOPC", "vopc", 32, 32, 0, 0, "ff", "ref", "", 0x41, 0x42, 0x43, 0x44, 0x45, 0x46))
